@@ -470,3 +470,12 @@ def i11(ctx):
 
 
 RULES.append(i11)
+
+
+@rule("I12", doc="the bound slots of a new class's e-node are refreshed one fresh name per bound slot (C03.H6): sharing one name lets an inner binder capture the outer one, the node is stored under the wrong shape and a term just inserted is not found again")
+def i12(ctx):
+    from . import c03
+    c03.h6(ctx)
+
+
+RULES.append(i12)
